@@ -289,6 +289,17 @@ func singleFieldMessages(md protoreflect.MessageDescriptor, emptyNested bool, yi
 			}
 			yield(label, m)
 		}
+		// scalar lists whose payload crosses the one-byte length limit (16, 32, 128 elements)
+		if fd.IsList() && fd.Kind() != protoreflect.MessageKind {
+			for _, n := range []int{16, 32, 128} {
+				m := base()
+				l := m.Mutable(fd).List()
+				for j := 0; j < n; j++ {
+					l.Append(boundary(fd, j))
+				}
+				yield(fmt.Sprintf("single-field %s x%d", fd.Name(), n), m)
+			}
+		}
 	}
 	yield("minimal", base())
 }
